@@ -26,6 +26,7 @@ def build(H, tier, seed):
 
 def standins(tier, seed):
     n = 8 if tier == 'quick' else 40
-    cfgs = [dict(p=2, q=0, r=1), dict(p=2), dict(p=3, q=0, r=1), dict(p=3)] + ([dict(p=1, q=1), dict(p=2, q=1, r=1), dict(p=4), dict(p=1)] if tier != 'quick' else [])
+    # explicit signatures in a non-default order (null generator last, a negative one first): the payload describes the algebra as it is
+    cfgs = [dict(p=2, q=0, r=1), dict(p=2), dict(p=3, q=0, r=1), dict(p=3), dict(signature=[1, 1, 0]), dict(signature=[-1, 1, 1])] + ([dict(p=1, q=1), dict(p=2, q=1, r=1), dict(p=4), dict(p=1)] if tier != 'quick' else [])
     return [{'name': f'graph#{i}', 'bound': f'{n} seeded nested subject trees (depth<=3) per algebra over 8 multivector layouts, colours, strings, callables; 2 drag updates',
              'job': {'kind': 'graph', 'module': 'standins.jobs6', 'configs': [dict(c, random=n, drags=2 if tier == 'quick' else 6)], 'seed': seed + i}} for i, c in enumerate(cfgs)]
